@@ -45,6 +45,25 @@ def live_stage(ctx):
     ctx.add_tlc("negative control: Spec without fairness does not imply CallTerminates (stuttering)", r, kind="negative_control")
 
 
+def skeleton_stage(ctx, configs, negatives=()):
+    """FaultAtomic / StoreOnce / NeverOwnBackground for ANY number of features, inner samples and calls: TLAPS proof over the
+    control skeleton of explain_one, and TLC refinement of IncExplainer to that skeleton (the old commit order must not
+    refine it)"""
+    from harness import tlaps
+    tlaps.prove(ctx, "CtlSkeleton", "Spec => [](FaultAtomic /\\ StoreOnce /\\ NeverOwnBackground) for every D >= 1, every per-call "
+                "number of inner samples and every number of calls")
+    for c in configs:
+        r = tlc.require_ok(tlc.run("Refine_CtlSkeleton", "Refine_CtlSkeleton_" + c, tag=ctx.pid.lower() + "skel"), c)
+        if r.status != "ok":
+            raise tlc.TLCError("IncExplainer(%s) does not implement CtlSkeleton: %s\n%s" % (c, r.violated, r.counterexample[:2500]))
+        ctx.add_tlc("refinement IncExplainer_%s => CtlSkeleton!Spec" % c, r, kind="refinement")
+    for c in negatives:
+        r = tlc.require_ok(tlc.run("Refine_CtlSkeleton", "Refine_CtlSkeleton_" + c, tag=ctx.pid.lower() + "skelneg"), c)
+        if r.status != "violation":
+            raise tlc.TLCError("negative control %s: the old commit order refines the skeleton (status %s)" % (c, r.status))
+        ctx.add_tlc("negative control %s (old commit order) does not implement CtlSkeleton" % c, r, kind="negative_control")
+
+
 def abs_stage(ctx, configs):
     """The atomic specification (one explain_one call = one step) checked on its own: deeper call sequences."""
     for c in configs:
